@@ -217,12 +217,13 @@ class Circuit:
         finally:
             # do not leave the helper task pending if the simulation task has finished first
             init_done.cancel()
-        if self._simtask.done():
-            if self._simtask.cancelled():
+        # the simulation may have failed already (e.g. in the very first evaluation
+        # of the circuit), but the task may be still busy with the cleanup
+        if (error := self._error) is not None or self._simtask.done():
+            if error is None or isinstance(error, asyncio.CancelledError):
                 msg = "The simulation task is finished"
             else:
-                # normal simtask exit is not possible
-                msg = f"The simulation task failed with error: {self._simtask.exception()}"
+                msg = f"The simulation task failed with error: {error}"
             raise EdzedInvalidState(msg)
 
     def check_not_finalized(self) -> None:
